@@ -39,6 +39,13 @@ def run(ctx):
                        'every interest change (the method\'s own register_fd / notify_fd slot code, helpers inlined, evaluated on a bounded '
                        'model: 3 descriptors, every sequence of 3 changes from the empty state)', floor=2)
     ctx.section(slot_pairing)
+    # floor: one obligation per poll slot that makes descriptors ready (4 on the reference tree; 2 as in R-C03b's count)
+    ctx.rule('R-C03g', 'recorded readiness belongs to the registration the kernel reported it for: in every root that makes descriptors '
+                       'ready (poll slot, helpers inlined), on no path does user code (a call through a handler field of any library object, '
+                       'or a call that can reach one) run between the kernel wait of this iteration and a later make-ready operation -- a '
+                       'handler may unregister a descriptor and register the same struct again, and what the wait reported for the old '
+                       'registration would be recorded for the new one', floor=2)
+    ctx.section(batch_fresh)
 
 
 def _by_site(contexts):
@@ -592,3 +599,55 @@ def slot_pairing(ctx):
                       'array holds it there and the kernel-facing array carries its file descriptor there; the others own none', fn=f.q)
     if not n:
         raise AnalysisBroken('no poll method keeps descriptors in array slots: discovery failed')
+
+
+def _activating_roots(prog):
+    """(make-ready operations {q: Func}, {q: Func} of the roots that make descriptors ready: the nearest roots of the callers of a
+    make-ready operation, and a make-ready operation that is itself a poll slot (activation written out in the slot))"""
+    rts = h03.root_map(prog)
+    mk = {}
+    for o in h03.functions_with(prog, h03.is_link, {(FD, 'list_active')}):
+        mk.update(h03.nearest_roots(prog, o, rts))
+    if not mk:
+        raise AnalysisBroken('no function links a descriptor into an active batch')
+    slots = {f.q for f in prog.slot_targets('poll')}
+    roots = {q: mk[q] for q in mk if q in slots}
+    for q in sorted(mk):
+        for (c, e) in prog.callers_of(mk[q].name):
+            u = prog.unit_of(c)
+            t = prog.resolve(u, e['callee']) if u else None
+            if t is not None and t.q != q:
+                continue
+            roots.update(h03.nearest_roots(prog, c, rts))
+    return mk, roots
+
+
+def batch_fresh(ctx):
+    """R-C03g: what a make-ready operation records is what the preceding kernel wait reported for the registration that
+    existed then.  User code may change registrations (unregister + register of the same struct, struct reuse), so none may run
+    between the wait and the last make-ready operation that consumes its results.  May-analysis 'user code has run since the
+    last kernel wait' on the inlined root; judged at every make-ready call and at every link into a batch."""
+    prog = ctx.prog
+    mk, roots = _activating_roots(prog)
+    mkq = set(mk)
+    mknames = {r.name for r in mk.values()}
+    if not roots:
+        raise AnalysisBroken('the make-ready operation is never called')
+    nuser = 0
+    for cq in sorted(roots):
+        r = roots[cq]
+        g = h03.inline(prog, r, stop=lambda t, cq=cq: t.q in mkq and t.q != cq)
+        uses = [e for e in g.events() if (e['ev'] == 'call' and e.get('callee') in mknames) or h03.is_link(e)]
+        waits = [e for e in g.events() if e['ev'] == 'call' and e.get('callee') in h03.WAITS]
+        if not uses:
+            raise AnalysisBroken('%s: make-ready operation not found in the inlined root' % r.name)
+        since = h03.user_code_since_wait(prog, g)
+        nuser += len({e.get('loc') for e in g.events() if h03.user_code_event(prog, e)})
+        bad = [(e, since.get((e['_b'], e['_i']))) for e in uses if since.get((e['_b'], e['_i']))]
+        ctx.ob('R-C03g', 'make_ready:caller:%s:no-user-code-since-wait' % r.name, bool(waits) and not bad,
+               loc=(bad[0][0] if bad else uses[0])['loc'],
+               detail=('a descriptor is made ready after user code may have run since the kernel wait: %s' % bad[0][1]) if bad else
+                      ('no kernel wait (%s) in this root' % '/'.join(h03.WAITS)) if not waits else
+                      '%d make-ready operation(s); on no path did user code run between the kernel wait and one of them'
+                      % len({e.get('loc') for e in uses}),
+               path=path_to(g, bad[0][0]) if bad else None, fn=cq)
